@@ -44,10 +44,11 @@ type scalarRes struct {
 }
 
 type execCtx struct {
-	db      *DB
-	sets    map[Expr]*valueSet
-	scalars map[*Subquery]scalarRes
-	depth   int
+	db          *DB
+	sets        map[Expr]*valueSet
+	scalars     map[*Subquery]scalarRes
+	scalarTypes map[*Subquery]*Type
+	depth       int
 }
 
 func (x *execCtx) evalCTE(c *cteScope) (*relation, error) {
@@ -234,8 +235,20 @@ type selectCtx struct {
 	aliases map[string]Expr
 	canon   map[canonKey]string
 	hasAggC map[Expr]int8
+	typeCache map[typeKey]*Type
 	// arrayJoinKey is the canonical text of the (single) arrayJoin() argument of this select.
 	arrayJoinKey string
+	arrayJoinX   Expr
+
+	// prepared by analyze()
+	items    []Expr
+	names    []string
+	types    []*Type
+	orderX   []Expr
+	limitByX []Expr
+	groupX   []Expr
+	agg      bool
+	keyCanon map[string]int
 }
 
 type pipeRow struct {
@@ -372,16 +385,6 @@ func (x *execCtx) evalSelect(q *SelectQuery, scope *cteScope) (*relation, error)
 	}
 	if q.Where != nil {
 		filters = append(filters, q.Where)
-	}
-	for _, f := range filters {
-		agg, err := sc.hasAgg(f, nil)
-		if err != nil {
-			return nil, err
-		}
-		if agg {
-			// rule A5 (last sentence): aggregate-valued aliases / aggregates are illegal in WHERE
-			return nil, raise("ILLEGAL_AGGREGATION", "aggregate function in WHERE/PREWHERE: %s", exprText(f))
-		}
 	}
 	if len(filters) > 0 {
 		kept := rows[:0:0]
@@ -850,15 +853,21 @@ type outRow struct {
 	lby   string
 }
 
-func (sc *selectCtx) project(rows []pipeRow) (*relation, error) {
+// analyze performs the row-independent analysis ClickHouse does before execution: asterisk
+// expansion, positional arguments, aggregate detection, GROUP BY key matching (NOT_AN_AGGREGATE),
+// identifier / function / argument type checks of every clause, result types.
+func (sc *selectCtx) analyze() error {
 	q := sc.q
-	x := sc.x
 	items, names, err := sc.expandItems()
 	if err != nil {
-		return nil, err
+		return err
 	}
-	// ORDER BY / LIMIT BY expressions with positional arguments resolved
-	// (enable_positional_arguments = 1: a bare integer literal N means the N-th select item)
+	sc.items, sc.names = items, names
+	if err := sc.findArrayJoin(); err != nil {
+		return err
+	}
+	// positional arguments (enable_positional_arguments = 1): a bare integer literal N in GROUP BY /
+	// ORDER BY / LIMIT BY means the N-th select item
 	positional := func(e Expr, what string) (Expr, error) {
 		if l, ok := e.(*Literal); ok {
 			if isInteger(l.Val) {
@@ -872,61 +881,122 @@ func (sc *selectCtx) project(rows []pipeRow) (*relation, error) {
 		}
 		return e, nil
 	}
-	orderX := make([]Expr, len(q.OrderBy))
+	sc.orderX = make([]Expr, len(q.OrderBy))
 	for i, o := range q.OrderBy {
-		if orderX[i], err = positional(o.X, "ORDER BY"); err != nil {
-			return nil, err
+		if sc.orderX[i], err = positional(o.X, "ORDER BY"); err != nil {
+			return err
 		}
 	}
-	limitByX := make([]Expr, len(q.LimitBy))
+	sc.limitByX = make([]Expr, len(q.LimitBy))
 	for i, e := range q.LimitBy {
-		if limitByX[i], err = positional(e, "LIMIT BY"); err != nil {
-			return nil, err
+		if sc.limitByX[i], err = positional(e, "LIMIT BY"); err != nil {
+			return err
 		}
 	}
-	groupX := make([]Expr, len(q.GroupBy))
+	sc.groupX = make([]Expr, len(q.GroupBy))
 	for i, e := range q.GroupBy {
-		if groupX[i], err = positional(e, "GROUP BY"); err != nil {
-			return nil, err
+		if sc.groupX[i], err = positional(e, "GROUP BY"); err != nil {
+			return err
 		}
 	}
-
 	// is this an aggregating select?
-	agg := len(groupX) > 0
-	check := append(append([]Expr{}, items...), orderX...)
-	check = append(check, limitByX...)
+	sc.agg = len(sc.groupX) > 0
+	check := append(append([]Expr{}, items...), sc.orderX...)
+	check = append(check, sc.limitByX...)
 	if q.Having != nil {
 		check = append(check, q.Having)
 	}
 	for _, e := range check {
-		if agg {
+		if sc.agg {
 			break
 		}
 		a, err := sc.hasAgg(e, nil)
 		if err != nil {
-			return nil, err
+			return err
 		}
-		agg = agg || a
+		sc.agg = sc.agg || a
 	}
-	for _, g := range groupX {
+	te := &typeEnv{}
+	for _, g := range sc.groupX {
 		a, err := sc.hasAgg(g, nil)
 		if err != nil {
-			return nil, err
+			return err
 		}
 		if a {
-			return nil, raise("ILLEGAL_AGGREGATION", "aggregate function in GROUP BY: %s", exprText(g))
+			return raise("ILLEGAL_AGGREGATION", "aggregate function in GROUP BY: %s", exprText(g))
+		}
+		if _, err := sc.typeOf(g, te); err != nil {
+			return err
 		}
 	}
-
-	// static result types
-	types := make([]*Type, len(items))
-	for i, it := range items {
-		t, err := sc.typeOf(it, nil)
+	// WHERE / PREWHERE
+	for _, f := range []Expr{q.Prewhere, q.Where} {
+		if f == nil {
+			continue
+		}
+		a, err := sc.hasAgg(f, nil)
 		if err != nil {
-			return nil, err
+			return err
 		}
-		types[i] = t
+		if a {
+			// rule A5 (last sentence): aggregates / aggregate-valued aliases are illegal in WHERE
+			return raise("ILLEGAL_AGGREGATION", "aggregate function in WHERE/PREWHERE: %s", exprText(f))
+		}
+		t, err := sc.typeOf(f, te)
+		if err != nil {
+			return err
+		}
+		if t != nil && !logicalArgOK(t) {
+			return raise("ILLEGAL_TYPE_OF_COLUMN_FOR_FILTER", "illegal type %s of column for filter", t)
+		}
 	}
+	if sc.agg {
+		if sc.arrayJoinKey != "" {
+			return unsupported("arrayJoin() together with aggregation")
+		}
+		sc.keyCanon = map[string]int{}
+		for i, g := range sc.groupX {
+			c, err := sc.canonOf(g, nil, nil)
+			if err != nil {
+				return err
+			}
+			if _, dup := sc.keyCanon[c]; !dup {
+				sc.keyCanon[c] = i
+			}
+		}
+		te = &typeEnv{group: true, keyCanon: sc.keyCanon}
+	}
+	sc.types = make([]*Type, len(items))
+	for i, it := range items {
+		t, err := sc.typeOf(it, te)
+		if err != nil {
+			return err
+		}
+		sc.types[i] = t
+	}
+	rest := append(append([]Expr{}, sc.orderX...), sc.limitByX...)
+	for _, e := range rest {
+		if _, err := sc.typeOf(e, te); err != nil {
+			return err
+		}
+	}
+	if q.Having != nil {
+		t, err := sc.typeOf(q.Having, te)
+		if err != nil {
+			return err
+		}
+		if t != nil && !logicalArgOK(t) {
+			return raise("ILLEGAL_TYPE_OF_COLUMN_FOR_FILTER", "illegal type %s of column for HAVING", t)
+		}
+	}
+	return nil
+}
+
+func (sc *selectCtx) project(rows []pipeRow) (*relation, error) {
+	q := sc.q
+	x := sc.x
+	items, names, types := sc.items, sc.names, sc.types
+	orderX, limitByX, groupX, agg := sc.orderX, sc.limitByX, sc.groupX, sc.agg
 
 	var outs []outRow
 	evalOut := func(ev *env) error {
@@ -974,9 +1044,6 @@ func (sc *selectCtx) project(rows []pipeRow) (*relation, error) {
 	}
 
 	if agg {
-		if sc.arrayJoinKey != "" {
-			return nil, unsupported("arrayJoin() together with aggregation")
-		}
 		// group rows; output order = first appearance of the group (deterministic choice)
 		type group struct {
 			keys []Value
@@ -1009,16 +1076,7 @@ func (sc *selectCtx) project(rows []pipeRow) (*relation, error) {
 		if len(groupX) == 0 && len(groups) == 0 {
 			groups = append(groups, &group{})
 		}
-		keyCanon := map[string]int{}
-		for i, g := range groupX {
-			c, err := sc.canonOf(g, nil, nil)
-			if err != nil {
-				return nil, err
-			}
-			if _, dup := keyCanon[c]; !dup {
-				keyCanon[c] = i
-			}
-		}
+		keyCanon := sc.keyCanon
 		for _, g := range groups {
 			ev := sc.newEnv(nil)
 			ev.group = &groupCtx{rows: g.rows, keyCanon: keyCanon, keyVals: g.keys}
